@@ -7,6 +7,9 @@ CHECKS = {}
 NOT_APPLICABLE = {}
 
 def add(cid, src, quick, thorough, rule, **kw):
+    more = kw.pop("rule_more", "")
+    if more:
+        rule = rule + " | dimensions added while the checks met the seeded changes (DESIGN.md section 6): " + more
     d = dict(id=cid, sources=[src] + kw.pop("extra_sources", []), builds=dict(quick=_b(*quick), thorough=_b(*thorough)), rule=rule)
     d.update(kw)
     CHECKS[cid] = d
